@@ -7,6 +7,7 @@ INVARIANTS
   TypeOK
   OneOutcome
   RoundTrip
+  RefusesUnwrappable
   RegistryClosure
   PrefixAgnostic
   EveryKey
